@@ -1,5 +1,5 @@
-From Coq Require Import List NArith Arith.
-From SK Require Import lib.LGraph lib.Mono model.C11_Model proof.C11_Aut proof.C11_WL proof.C11_Dedup proof.C11_Main proof.C11_Comp proof.C11_VF2 proof.C11_Vocab proof.C11_Sig proof.C11_Anchor model.C11_State proof.C11_StateProof model.C11_Partial proof.C11_PartialProof proof.C11_PruneClass proof.C11_WLPart proof.C11_Idem model.C11_Keys model.C11_Attr proof.C11_AttrProof.
+From Coq Require Import List NArith Arith Permutation Sorted.
+From SK Require Import lib.LGraph lib.Mono model.C11_Model proof.C11_Aut proof.C11_WL proof.C11_Dedup proof.C11_Main proof.C11_Comp proof.C11_VF2 proof.C11_Vocab proof.C11_Sig proof.C11_Anchor model.C11_State proof.C11_StateProof model.C11_Partial proof.C11_PartialProof proof.C11_PruneClass proof.C11_WLPart proof.C11_Idem model.C11_Keys model.C11_Attr proof.C11_AttrProof model.C11_Orbit proof.C11_OrbitProof proof.C11_Extend model.C11_Order proof.C11_OrderProof.
 Import ListNotations.
 
 (** Vocabulary (definitions in proof/C11_Aut.v, written out here for the reader):
@@ -403,3 +403,83 @@ Theorem C11_rule_labels :
        exists s, rule_automorphism skip ag s /\ m = aut_pairs (to_rule_graph skip ag) s).
 Proof. exact rule_labels. Qed.
 Print Assumptions C11_rule_labels.
+
+(** orbit.py (round 5; model/C11_Orbit.v): OrbitAccuracy(approx, exact) applied to the WL-1 estimate and the exact
+    analysis of one connected graph.  [oa_valid] = the class accepts the two lists (same node set, else ValueError);
+    [inter_size a e] = len(a & e), an entry of the confusion map; [same_in P u v] = the two nodes have the same member
+    index in P (the test of the pairwise accuracy; index = LAST member containing the node); [oa_pairwise] =
+    (agreeing pairs, pairs).  Because the estimate never separates a true orbit: the lists are accepted; an exact orbit
+    lies wholly inside an estimated class or is disjoint from it; nodes the truth puts together are together in the
+    estimate (every pairwise error is a merge); and if the estimate merges nothing the truth separates, the pairwise
+    accuracy is 1. *)
+Theorem C11_orbit_accuracy :
+  forall (fn : nlab -> N) (fe : elab -> N) (g : graph) (k : nat),
+    wf g -> (length (components g) <= 1)%nat ->
+    let A := wl_orbits (wl fn fe g k) in
+    let E := a_orbits (analyze fn fe g) in
+    oa_valid A E = true /\
+    (forall a e, In a A -> In e E -> inter_size a e = 0%N \/ inter_size a e = N.of_nat (length (canonN e))) /\
+    (forall u v, In u (node_ids g) -> same_in E u v = true -> same_in A u v = true) /\
+    ((forall u v, In u (node_ids g) -> In v (node_ids g) -> same_in A u v = true -> same_in E u v = true) ->
+     fst (oa_pairwise A E) = snd (oa_pairwise A E)).
+Proof. exact orbit_accuracy_wl. Qed.
+Print Assumptions C11_orbit_accuracy.
+
+(** The observable of an [aut] case evaluates the analysis once; it is the composition of the functions the theorems
+    talk about. *)
+Theorem C11_aut_observable :
+  forall g : graph,
+    run_aut_all g = Tok.L [ run_aut g; Tok.tbool (wfb g); Tok.tlist t_maps (aut_lists g); run_aut_oa g ] /\
+    run_aut_full g = Tok.L [ run_aut g; Tok.tbool (wfb g); Tok.tlist t_maps (aut_lists g); run_aut_oa g; run_order g ].
+Proof. exact (fun g => conj (run_aut_all_eq g) (run_aut_full_eq g)). Qed.
+Print Assumptions C11_aut_observable.
+
+(** Clause 2, second sentence, for the orbits the exact analysis REPORTS - every graph, connected or not (round 5).  For a
+    disconnected graph the reported orbits are those of the components (component swaps excluded).  An automorphism of a
+    component extends by the identity to an automorphism of the whole graph, so a reported orbit lies inside an orbit of
+    the full group; hence the estimate, after any number of sweeps, gives two nodes of one reported orbit the same
+    colour, and every reported orbit lies inside one estimated class. *)
+Theorem C11_wl_never_splits_reported :
+  forall (fn : nlab -> N) (fe : elab -> N) (g : graph) (k : nat), wf g ->
+    (forall c s, In c (components g) -> is_automorphism fn fe (induced_sub g c) s ->
+       is_automorphism fn fe g (fun u => if LGraph.mem u c then s u else u)) /\
+    (forall o u v, In o (a_orbits (analyze fn fe g)) -> In u o -> In v o ->
+       col (wl fn fe g k) v = col (wl fn fe g k) u) /\
+    (forall o u, In o (a_orbits (analyze fn fe g)) -> In u o ->
+       exists a, In a (wl_orbits (wl fn fe g k)) /\ forall v, In v o -> In v a).
+Proof. exact wl_never_splits_reported. Qed.
+Print Assumptions C11_wl_never_splits_reported.
+
+(** ... and therefore C11_orbit_accuracy without the connectedness premise. *)
+Theorem C11_orbit_accuracy_all :
+  forall (fn : nlab -> N) (fe : elab -> N) (g : graph) (k : nat),
+    wf g ->
+    let A := wl_orbits (wl fn fe g k) in
+    let E := a_orbits (analyze fn fe g) in
+    oa_valid A E = true /\
+    (forall a e, In a A -> In e E -> inter_size a e = 0%N \/ inter_size a e = N.of_nat (length (canonN e))) /\
+    (forall u v, In u (node_ids g) -> same_in E u v = true -> same_in A u v = true) /\
+    ((forall u v, In u (node_ids g) -> In v (node_ids g) -> same_in A u v = true -> same_in E u v = true) ->
+     fst (oa_pairwise A E) = snd (oa_pairwise A E)).
+Proof. exact orbit_accuracy_all. Qed.
+Print Assumptions C11_orbit_accuracy_all.
+
+(** The ORDER of the reported lists (round 5; model/C11_Order.v).  Automorphism.orbits is the orbit set sorted by the key
+    [okey o] = (size, the numerals of the members sorted as strings and joined with "|") ([orbit_leb] compares two keys
+    as Python compares (int, str) tuples): a permutation of the set - so every statement above about membership holds
+    for the list -, sorted, and independent of the order in which the set was enumerated as long as no two members
+    have the same key.  AutoEst.groups is a sorted permutation of the member lists; AutoEst.orbit_index sends a node
+    to the position of a member that contains it and is defined for every covered node. *)
+Theorem C11_orbit_order :
+  forall (O : list (list N)) (cs : colouring),
+    Permutation (sorted_orbits O) O /\
+    (forall o, In o (sorted_orbits O) <-> In o O) /\
+    Sorted (fun a b => orbit_leb a b = true) (sorted_orbits O) /\
+    (forall O', Permutation O O' -> NoDup (map okey O) -> sorted_orbits O' = sorted_orbits O) /\
+    Permutation (wl_groups cs) (map sortN (wl_orbits cs)) /\
+    Sorted (fun a b => group_leb a b = true) (wl_groups cs) /\
+    (forall u j, wl_orbit_index cs u = Some j ->
+       In (nth (N.to_nat j) (wl_orbits cs) []) (wl_orbits cs) /\ In u (nth (N.to_nat j) (wl_orbits cs) [])) /\
+    (forall u, (exists o, In o (wl_orbits cs) /\ In u o) -> exists j, wl_orbit_index cs u = Some j).
+Proof. exact orbit_order. Qed.
+Print Assumptions C11_orbit_order.
